@@ -76,6 +76,7 @@ def Skeleton.pinned : Skeleton where
   lkRejectsNonStruct := true
   lkFieldByName := true
   lkRejectsInvalidField := true
+  lkRejectsUnexportedField := false
   lkMethodByNameOnLast := true
   lkRejectsNonFunc := true
   lkRecoversPanics := false
